@@ -55,6 +55,9 @@ func c01ID(typ, key string) string { return fmt.Sprintf("%d:%s|%s", len(typ), ty
 // c01Nul: identities whose strings contain a NUL byte (a separator-based identity would confuse them)
 var c01Nul = []c01Ident{{"a\x00b", "c"}, {"a", "b\x00c"}, {"a\x00", ""}, {"a", "\x000"}}
 
+// c01Numeric: keys that look like numbers but are not in canonical form (a column with numeric affinity would rewrite them)
+var c01Numeric = []c01Ident{{"a", "01"}, {"a", "1"}, {"a", "-0"}, {"a", "1.0"}, {"a", "1e0"}, {"a", " 1"}}
+
 func c01BodyI(edge bool, maxN int, c01Idents []c01Ident, samePayload ...bool) mc.Body {
 	same := len(samePayload) > 0 && samePayload[0]
 	return func(x *mc.X) mc.Outcome {
@@ -288,6 +291,8 @@ func checkC01(r *mc.Report, thorough bool) {
 	r.Explore(mc.Config{Name: "edge-points-empty-type-n3", Rule: "the same for edge points", SelfCheckEvery: 5000}, c01BodyI(true, 3, c01EmptyType))
 	r.Explore(mc.Config{Name: "node-points-nul-bytes-n2", Rule: "two points over identities whose type / key contain a NUL byte ((a\\x00b,c), (a,b\\x00c), (a\\x00,\"\"), (a,\\x000)): all orders, batch compositions and re-deliveries", SelfCheckEvery: 5000}, c01BodyI(false, 2, c01Nul))
 	r.Explore(mc.Config{Name: "edge-points-nul-bytes-n2", Rule: "the same for edge points", SelfCheckEvery: 5000}, c01BodyI(true, 2, c01Nul))
+	r.Explore(mc.Config{Name: "node-points-numeric-looking-keys-n2", Rule: "two points over the identities (a,01), (a,1), (a,-0), (a,1.0), (a,1e0), (a,\" 1\"): keys are strings, whatever they look like", SelfCheckEvery: 5000}, c01BodyI(false, 2, c01Numeric))
+	r.Explore(mc.Config{Name: "edge-points-numeric-looking-keys-n2", Rule: "the same for edge points", SelfCheckEvery: 5000}, c01BodyI(true, 2, c01Numeric))
 	sameRule := "three points of one identity of which two (any two) or all three carry the same value, text, data, tombstone and origin and differ only in their time; timestamps rising / falling with the index; all permutations x all compositions into batches x one re-delivery; read-back (time included) checked after every delivery"
 	r.Explore(mc.Config{Name: "node-points-same-payload", Rule: sameRule}, c01Body(false, 3, true))
 	r.Explore(mc.Config{Name: "edge-points-same-payload", Rule: sameRule}, c01Body(true, 3, true))
@@ -306,6 +311,8 @@ func init() {
 	bodies["C01/edge-points-empty-type-n3"] = c01BodyI(true, 3, c01EmptyType)
 	bodies["C01/node-points-nul-bytes-n2"] = c01BodyI(false, 2, c01Nul)
 	bodies["C01/edge-points-nul-bytes-n2"] = c01BodyI(true, 2, c01Nul)
+	bodies["C01/node-points-numeric-looking-keys-n2"] = c01BodyI(false, 2, c01Numeric)
+	bodies["C01/edge-points-numeric-looking-keys-n2"] = c01BodyI(true, 2, c01Numeric)
 	bodies["C01/node-points-same-payload"] = c01Body(false, 3, true)
 	bodies["C01/edge-points-same-payload"] = c01Body(true, 3, true)
 }
